@@ -11,7 +11,8 @@ PROPERTY = "C07"
 RULE = ("cases = (selector, document): an exhaustive grid of array lengths x {omitted, 0, +-1..+-(len+2), "
         "+-(2^53-1)} for index and for each of start/end/step (both spellings of an omitted step), the same "
         "selectors on objects with numeric-looking names, strings and scalars, plus Hypothesis-drawn lengths "
-        "<= 60 with arbitrary in-range integers and blank space inside the brackets; non-trivial = some bound "
+        "<= 60 with arbitrary in-range integers and blank space inside the brackets, and a handful of slices and indices "
+        "on arrays of 1000-70000 (thorough: 200000) elements around powers of two; non-trivial = some bound "
         "is negative, beyond the length, omitted, or the step is not 1; distinct by (selector text, document)")
 ASSUMPTIONS = ["the reference transcribes the RFC 9535 Normalize/Bounds/iterate pseudo-code",
                "documents are what json.load produces"]
@@ -49,6 +50,9 @@ def plan(tier, seed):
     maxlen = 7 if tier == "quick" else 10
     specs = [{"mode": "grid", "len": n} for n in range(maxlen + 1)]
     specs.append({"mode": "nonarray"})
+    big = [1000, 1024, 4096, 8192, 8193, 65536, 70000] if tier == "quick" else \
+        [1000, 1023, 1024, 1025, 4095, 4096, 4097, 8191, 8192, 8193, 10000, 16384, 16385, 65535, 65536, 65537, 70000, 200000]
+    specs += [{"mode": "big", "len": n} for n in big]
     nh = 4 if tier == "quick" else 16
     per = 750 if tier == "quick" else 10000
     specs += [{"mode": "hyp", "n": per} for _ in range(nh)]
@@ -113,6 +117,18 @@ def run_shard(spec, shard):
                             ("step-zero",) if c == 0 else ("step-pos",)))
         shard.exhaustive[f"grid-len-{n}"] = (f"array length {n}: every (start,end,step) and index over "
                                              f"{len(vals)} values each")
+    elif spec["mode"] == "big":
+        # around typical size thresholds (chunking, copying, caching): a handful of slices and indices per size
+        n = spec["len"]
+        doc = [float(i) for i in range(n)]
+        sels = [["slice", None, None, -1], ["slice", -3, None, None], ["slice", n - 5, None, -1], ["slice", None, None, -(n // 3)],
+                ["slice", 5, n - 5, max(1, n // 7)], ["slice", n + 5, 0, -max(1, n // 5)], ["slice", -n - 5, None, n // 2],
+                ["slice", None, None, LIM], ["slice", n - 1, n - 4, -1], ["slice", None, 3, None], ["slice", -2, -n - 1, -(n // 2)],
+                ["slice", 2, None, n // 2], ["index", -1], ["index", n - 1], ["index", -n], ["index", n], ["index", -n - 1],
+                ["index", n // 2]]
+        for sel in sels:
+            q = f"$[{sel[1]}]" if sel[0] == "index" else slice_text(sel[1], sel[2], sel[3], 0)
+            _one(shard, q, sel, doc, extra=("big-array",))
     elif spec["mode"] == "nonarray":
         docs = [{"0": "a", "1": "b", "-1": "c", "2": "d"}, {}, "abcdef", "", 5, 0, 1.5, None, True, False]
         vals = [None, 0, 1, -1, 2, -2, 5]
